@@ -29,17 +29,15 @@ Definition t11_notification_blocked := 5%nat.
 
 Definition conf_error : list N := [1; 30; 0; 0; 4].
 
-Definition check11 (c : cfg) (m : obs) (o : srv_op) (r : srv_out) : option nat :=
+(* safety clauses: fault, two_outstanding, bad_confirmation_accepted
+   (C11_monitor_core_accepts_model: proved for every trace of the model) *)
+Definition check11_core (c : cfg) (m : obs) (o : srv_op) (r : srv_out) : option nat :=
   match o, r with
   | _, OFault => if fault_relevant o then Some t11_fault else None
   | OpOut cid n, OBytes pdu =>
-      let k := oc_at m cid in
       match pdu with
-      | [] =>
-          if (3 <=? eff_size c k n) && eligible_must k && (o_slack k =? 0)
-          then Some (if existsb fst (o_must k) then t11_notification_blocked else t11_indication_lost)
-          else None
-      | opc :: _ => if (opc =? 29) && o_out k then Some t11_two_outstanding else None
+      | [] => None
+      | opc :: _ => if (opc =? 29) && o_out (oc_at m cid) then Some t11_two_outstanding else None
       end
   | OpIn cid (30 :: rest) n, OBytes resp =>
       if n <? default_att_mtu then None
@@ -50,6 +48,25 @@ Definition check11 (c : cfg) (m : obs) (o : srv_op) (r : srv_out) : option nat :
   | _, _ => None
   end.
 
+(* bounded liveness clauses: indication_lost, notification_blocked *)
+Definition check11_live (c : cfg) (m : obs) (o : srv_op) (r : srv_out) : option nat :=
+  match o, r with
+  | OpOut cid n, OBytes [] =>
+      let k := oc_at m cid in
+      if (3 <=? eff_size c k n) && eligible_must k && (o_slack k =? 0)
+      then Some (if existsb fst (o_must k) then t11_notification_blocked else t11_indication_lost)
+      else None
+  | _, _ => None
+  end.
+
+Definition check11 (c : cfg) (m : obs) (o : srv_op) (r : srv_out) : option nat :=
+  match check11_core c m o r with
+  | Some t => Some t
+  | None => check11_live c m o r
+  end.
+
 Definition mstep11 := mstep_of check11.
 Definition monitor11 (c : cfg) (tr : list (srv_op * srv_out)) : option (nat * nat) :=
   monitor_from_of check11 c (obs_init c) O tr.
+Definition monitor11_core (c : cfg) (tr : list (srv_op * srv_out)) : option (nat * nat) :=
+  monitor_from_of check11_core c (obs_init c) O tr.
